@@ -209,6 +209,7 @@ def verify_target(repo_root: str, relpath: str, qualname: str, contract: dict, r
                 c2 = dict(contract)
                 c2['params'] = dict(contract.get('params', {}), **var)
                 c2['requires'] = list(contract.get('requires', [])) + list(contract.get('requires_variant', {}).get(vi, []))
+                c2['ensures'] = list(contract.get('ensures', [])) + list(contract.get('ensures_variant', {}).get(vi, []))
             menv = NpModuleEnv(repo, relpath, registry, consts)
             eng = Engine(node, c2, registry, menv, qualname, cls_name=cls)
             for ob in eng.run():
